@@ -1,6 +1,7 @@
 package analyzer
 
 import (
+	"errors"
 	"fmt"
 	"log"
 	"path/filepath"
@@ -112,6 +113,10 @@ func prepareGocritic() (*gocritic, error) {
 func newGocritic() (*gocritic, error) {
 	critic := &gocritic{
 		infoList: filterCheckersList(registeredCheckers),
+	}
+	if len(critic.infoList) == 0 {
+		// Like the command: a selection that runs nothing is a configuration error.
+		return nil, errors.New("empty checkers set selected")
 	}
 
 	ver, err := linter.ParseGoVersion(flagGoVersion)
